@@ -114,6 +114,16 @@ class PhysicalStructureDoc(StructureDoc):
         self.domain = 'physical'
 
     @property
+    def coords(self) -> Union[None, Coords]:
+        return self._coords
+
+    @coords.setter
+    def coords(self, coords: Union[None, Coords]):
+        # the cached area belongs to the previous coordinates
+        self._coords = coords
+        self._area = None
+
+    @property
     def area(self):
         """Returns the size of the area represented by the convex hull of the coordinates.
 
